@@ -63,7 +63,7 @@ impl Prop for C09 {
     }
     fn rule(&self) -> String {
         "Generated: Decimal representations (all coefficient classes plus 2^a*5^b*m gcd stress up to 2^126 / 5^18 and m*10^k trailing zeros); for each the normalised base value and ALL its equal-valued representations (c0*10^k, f0+k) with f0+k <= 18 that fit are formed. \
-         Hash (std DefaultHasher with fixed keys) must be identical across all representations and equal to the hash of the (numerator, denominator) tuple; a recording Hasher (method name and bytes of every write_* call) must see the same call sequence for all representations, and the same for element-wise equal slices through hash_slice (Vec / array keys), also slices mixing the value with related other values (same raw coefficient at another scale, negation, +1 ulp, zero); a HashSet holding one representation must contain every other. \
+         Hash (std DefaultHasher with fixed keys) must be identical across all representations and equal to the hash of the (numerator, denominator) tuple; a recording Hasher (method name and bytes of every write_* call) must see the same call sequence for all representations and for the (numerator, denominator) tuple, and the same for element-wise equal slices through hash_slice (Vec / array keys), also slices mixing the value with related other values (same raw coefficient at another scale, negation, +1 ulp, zero); a HashSet holding one representation must contain every other. \
          as_integer_ratio / numerator / denominator must equal (c/g, 10^f/g) with g from Euclid's algorithm on big integers, d > 0, gcd 1; integers of the 9 types give (i, 1). \
          Non-trivial: at least two representations exist or g > 1. Distinct: hash of the case."
             .into()
@@ -180,6 +180,12 @@ impl Prop for C09 {
                     let mut set: HashSet<Decimal> = HashSet::new();
                     set.insert(dec);
                     let rec0 = record(&dec);
+                    // "identically to their (numerator, denominator) pair" for EVERY Hasher: the
+                    // Decimal must drive the Hasher with the same calls as the tuple does
+                    let rec_pair = record(&(n, d));
+                    if rec0 != rec_pair {
+                        bad.push(format!("a recording Hasher sees {rec0:?} for the Decimal but {rec_pair:?} for its (numerator, denominator) pair"));
+                    }
                     // (done for the first and the last representation only: cost)
                     let slice_rec = |v: &[Decimal]| {
                         let mut a = Recorder::default();
